@@ -18,6 +18,7 @@ void ObjectHeaderBase_read(struct ObjectHeaderBase *self, struct AbstractFile *i
     __CPROVER_assume(!(vb_exc == 0 && is->rdstate == IOS_goodbit) || self->signature == VBC_ObjectSignature);
     __CPROVER_assume(is->g >= g0 && is->g <= is->fileSize && is->p <= is->g);
     __CPROVER_assume(is->rdstate == IOS_goodbit || is->g == is->fileSize);    /* a cut-short header read has consumed the stream to its declared end (C09) */
-    if (is->rdstate != IOS_goodbit) is->hdr_end = 1;    /* ghost: the header read was cut short */
+    if (is->rdstate != IOS_goodbit) is->hdr_end = 1;
+    else { extern int64_t g_hdr_skip; __CPROVER_assume(is->g >= g0 + 16); g_hdr_skip = is->g - g0 - 16; is->asked = 16; }   /* good: filler + the 16-byte base header (C09) */    /* ghost: the header read was cut short */
 }
 #endif
